@@ -87,14 +87,18 @@ func peer(pipe *vrt.Pipe, extra func(channel int, pipe *vrt.Pipe)) {
 		case status&hx.EOM != 0 && len(w) > 8 && w[8] == tdspkg.TokLogout:
 			pipe.PeerSend(hdr(4, hx.EOM, channel, tdspkg.Done{Token: tdspkg.TokDone}.Encode()))
 		case status&hx.EOM != 0:
-			// reply: RETURNSTATUS(100+channel) in the first packet, DONE(count=channel) in the second
-			p1 := hdr(4, 0, channel, tdspkg.ReturnStatus{Value: int32(100 + channel)}.Encode())
-			p2 := hdr(4, hx.EOM, channel, tdspkg.Done{Token: tdspkg.TokDone, Status: 0x10, Count: int32(channel)}.Encode())
+			// reply: RETURNSTATUS(100+channel), DONE(count=channel); three packets, both cuts INSIDE a package,
+			// so that a package straddles a packet boundary while packets of other channels arrive in between
+			body := append(tdspkg.ReturnStatus{Value: int32(100 + channel)}.Encode(), tdspkg.Done{Token: tdspkg.TokDone, Status: 0x10, Count: int32(channel)}.Encode()...)
+			p1 := hdr(4, 0, channel, body[:3])
+			p2 := hdr(4, 0, channel, body[3:9])
+			p3 := hdr(4, hx.EOM, channel, body[9:])
 			pipe.PeerSend(p1)
 			if extra != nil {
 				extra(channel, pipe)
 			}
 			pipe.PeerSend(p2)
+			pipe.PeerSend(p3)
 		}
 	}
 }
